@@ -66,15 +66,89 @@ pub fn run_ref127(cfg: &ChipCfg, w: &Shared, op: &[&str]) -> Option<()> {
                 ldro: ldro.parse().ok()?,
             });
         }
+        ["pktparams", pre, implicit, len, crc, _iq] => {
+            // IQ inversion is not part of the reference's packet parameters registers (it is applied when TX/RX starts)
+            c.set_lora_pkt_params(&ref_pkt_params(pre.parse().ok()?, *implicit == "1", len.parse().ok()?, *crc == "1"));
+        }
+        ["irqparams", mode] => {
+            // SX127X_IRQ_*: TX_DONE 1<<0, RX_DONE 1<<1, HEADER_VALID 1<<4, CRC_ERROR 1<<6, CAD_DONE 1<<7, CAD_DETECTED 1<<8, TIMEOUT 1<<9
+            let m: u16 = match *mode {
+                "tx" => 0x0001,
+                "cad" => 0x0180,
+                m if m.starts_with("rx") => 0x0002 | 0x0200 | 0x0040 | 0x0010,
+                _ => 0,
+            };
+            c.set_irq_mask(m);
+        }
+        ["txpower", dbm, _hz, prep] => {
+            let p: i32 = dbm.parse().ok()?;
+            // the caller of the reference clamps the power to the range of the selected output
+            let (lo, hi) = match (cfg.variant, cfg.tx_boost) {
+                (Variant::Sx1272, true) => if p > 17 { (5, 20) } else { (2, 17) },
+                (Variant::Sx1272, false) => (-1, 14),
+                (_, true) => (2, 20),
+                (_, false) => (-4, 14),
+            };
+            let pc = p.clamp(lo, hi);
+            c.set_pa_cfg(&sys::sx127x_pa_cfg_params_t {
+                pa_select: if cfg.tx_boost { sys::sx127x_pa_select_e_SX127X_PA_SELECT_BOOST } else { sys::sx127x_pa_select_e_SX127X_PA_SELECT_RFO },
+                is_20_dbm_output_on: cfg.tx_boost && pc > 17,
+            });
+            c.set_tx_params(pc as i8, if *prep == "1" { sys::sx127x_ramp_time_e_SX127X_RAMP_40_US } else { sys::sx127x_ramp_time_e_SX127X_RAMP_250_US });
+        }
+        ["payload", hexs] => {
+            let data = unhex(hexs);
+            if data.len() > 255 {
+                return None;
+            }
+            // `write_buffer` pushes `lora_pkt_params.pld_len_in_bytes` bytes: the packet parameters come first
+            c.set_lora_pkt_params(&ref_pkt_params(8, false, data.len() as u8, true));
+            c.write_buffer(0, &data);
+        }
         _ => return None,
     }
     Some(())
 }
 
+fn ref_pkt_params(pre: u16, implicit: bool, len: u8, crc: bool) -> sys::sx127x_lora_pkt_params_t {
+    sys::sx127x_lora_pkt_params_t {
+        preamble_len_in_symb: pre,
+        header_type: if implicit {
+            sys::sx127x_lora_pkt_len_modes_e_SX127X_LORA_PKT_IMPLICIT
+        } else {
+            sys::sx127x_lora_pkt_len_modes_e_SX127X_LORA_PKT_EXPLICIT
+        },
+        pld_len_in_bytes: len,
+        crc_is_on: crc,
+        invert_iq_is_on: false,
+    }
+}
+
 /// which bits of which register an operation's effect is compared on (everything else is outside
 /// the shared part: errata registers lora-phy writes with the modulation, RX bring-up registers)
-pub fn eff_mask(op: &[&str], a: usize) -> u8 {
+pub fn eff_mask(cfg: &ChipCfg, op: &[&str], a: usize) -> u8 {
     match op.first().copied() {
+        // preamble, header type and CRC bits (read-modify-write of RegModemConfig1/2 on both sides); the payload
+        // length register is written by lora-phy in implicit-header mode only; IQ registers, FIFO base
+        // addresses, RegMaxPayloadLength and the reference's mode change are outside
+        Some("pktparams") => match a {
+            0x1d | 0x1e | 0x20 | 0x21 => 0xff,
+            0x22 => if op.get(2) == Some(&"1") { 0xff } else { 0 },
+            _ => 0,
+        },
+        // RegIrqFlagsMask; the DIO mapping lora-phy programs with it belongs to the reference's set_tx/set_rx
+        Some("irqparams") => if a == 0x11 { 0xff } else { 0 },
+        // PaSelect + OutputPower (+ MaxPower on the SX1276 RFO pin: with PA_BOOST the reference keeps these
+        // bits, lora-phy clears them), PaRamp[3:0], PaDac[2:0]; the OCP trim lora-phy adds is outside
+        Some("txpower") => match a {
+            0x09 => if cfg.variant != Variant::Sx1272 && !cfg.tx_boost { 0xff } else { 0x8f },
+            0x0a => 0x0f,
+            0x4d => if cfg.variant != Variant::Sx1272 { 0x07 } else { 0 },
+            0x5a => if cfg.variant == Variant::Sx1272 { 0x07 } else { 0 },
+            _ => 0,
+        },
+        // RegPayloadLength, RegFifoAddrPtr (+ the FIFO content, appended by `effect`)
+        Some("payload") => if a == 0x22 || a == 0x0d { 0xff } else { 0 },
         Some("modparams") => match a {
             0x1d | 0x1e | 0x37 => 0xff,
             // RegModemConfig3: lora-phy also forces AgcAutoOn (bit 2) off, the reference preserves it
@@ -90,9 +164,13 @@ pub fn eff_mask(op: &[&str], a: usize) -> u8 {
     }
 }
 
-pub fn effect(_cfg: &ChipCfg, w: &Shared, op: &[&str]) -> String {
+pub fn effect(cfg: &ChipCfg, w: &Shared, op: &[&str]) -> String {
     let m = w.borrow();
-    let v: Vec<u8> = (1..128).map(|a| m.regs[a] & eff_mask(op, a)).collect();
+    let mut v: Vec<u8> = (1..128).map(|a| m.regs[a] & eff_mask(cfg, op, a)).collect();
+    if let ["payload", hexs] = op {
+        // the bytes pushed into the FIFO (both drivers start at pointer 0)
+        v.extend_from_slice(&m.buffer[..(hexs.len() / 2).min(256)]);
+    }
     hex(&v)
 }
 
@@ -151,6 +229,39 @@ fn gen127_effect(g: &mut Gen, scale: u64) {
             }
             let (s, p) = (g.rng.below(100_000), opmode(g));
             emit_eff(g, chip, s, &p, &format!("dorx rxs{}", n), "symbol-timeout");
+        }
+        // packet parameters: all flag combinations x payload lengths, random preambles and prior register contents
+        for len in (0..=255u32).step_by(if scale > 1 { 1 } else { 5 }) {
+            for flags in 0..8u32 {
+                let pre = if g.rng.chance(1, 3) { g.rng.below(65536) } else { *g.rng.pick(&[0u64, 1, 8, 12, 255, 256, 65535]) };
+                let (s, p) = (g.rng.below(100_000), opmode(g));
+                emit_eff(g, chip, s, &p, &format!("pktparams {} {} {} {} {}", pre, flags & 1, len, (flags >> 1) & 1, (flags >> 2) & 1), "pktparams");
+            }
+        }
+        for mode in ["sleep", "standby", "tx", "rxs8", "rxc", "listen", "cad", "none"] {
+            for _ in 0..3 {
+                let (s, p) = (g.rng.below(100_000), opmode(g));
+                emit_eff(g, chip, s, &p, &format!("irqparams {}", mode), "irqparams");
+            }
+        }
+        // TX power: every level x both outputs x both ramp selections
+        for dbm in -128..=127i32 {
+            for prep in [0, 1] {
+                for f in ["", "/x"] {
+                    let c = format!("{}{}", chip, f);
+                    let (s, p) = (g.rng.below(100_000), opmode(g));
+                    emit_eff(g, &c, s, &p, &format!("txpower {} - {}", dbm, prep), "txpower");
+                }
+            }
+        }
+        for n in [0usize, 1, 2, 12, 23, 51, 64, 115, 222, 242, 254, 255] {
+            let data = g.rng.bytes(n);
+            // an empty payload has no hex token: the op grammar needs one
+            if n == 0 {
+                continue;
+            }
+            let (s, p) = (g.rng.below(100_000), format!("01={:02x}", 0x80 | *g.rng.pick(&[1u64, 3, 5, 6, 7])));
+            emit_eff(g, chip, s, &p, &format!("payload {}", hex(&data)), "payload");
         }
         for (sf, _) in SFS {
             if sf == 5 {
